@@ -42,13 +42,16 @@ L0 == [vi |-> 0, lr |-> 0, a |-> 0, b |-> 0, arg |-> 0, side |-> 0, phase |-> 0,
 Init == /\ MemInit
         /\ pc = [t \in Threads |-> "idle"]
         /\ loc = [t \in Threads |-> L0]
-        /\ lin = MonInit(1)
+        /\ lin = [mon |-> MonInit(1), bad |-> "ok"]
         /\ budget = [t \in Threads |-> IF t \in Writers THEN MaxUpdates ELSE MaxReads]
-        /\ last = [t |-> -1, k |-> "init", lab |-> "init", v |-> 0, ok |-> 1]
+        /\ last = [t |-> -1, k |-> "init", lab |-> "init", v |-> 0, ok |-> 1, n |-> 0]
 
 Goto(t, l) == pc' = [pc EXCEPT ![t] = l]
-Acc(t, k, lab, v, ok) == last' = [t |-> t, k |-> k, lab |-> lab, v |-> v, ok |-> ok]
-Return(t, r, v) == lin' = MonRet(lin, t, r, v) /\ Goto(t, "idle")
+Acc(t, k, lab, v, ok) == last' = [t |-> t, k |-> k, lab |-> lab, v |-> v, ok |-> ok, n |-> last.n + 1]    \* n: access counter
+\* `lin` = linearizability monitor (real-time order, SC) + memory-model independent ghost: a read never sees a mixture
+Return(t, r, v) == /\ lin' = [mon |-> MonRet(lin.mon, t, r, v),
+                              bad |-> IF v = -1 /\ lin.bad = "ok" THEN "mixture of two instance states observed" ELSE lin.bad]
+                   /\ Goto(t, "idle")
 
 LdTo(t, from, lab, x, f, to) ==
   /\ pc[t] = from
@@ -62,7 +65,7 @@ LdTo(t, from, lab, x, f, to) ==
 \* ------------------------------------------------------------------ read
 StartRead(t) == /\ t \notin Writers /\ pc[t] = "idle" /\ budget[t] > 0
                 /\ budget' = [budget EXCEPT ![t] = @ - 1]
-                /\ lin' = MonCall(lin, t, "load", 0, 0)
+                /\ lin' = [lin EXCEPT !.mon = MonCall(@, t, "load", 0, 0)]
                 /\ loc' = [loc EXCEPT ![t] = L0]
                 /\ Goto(t, "rd_vi") /\ Acc(t, "call", "load", 0, 1)
                 /\ UNCHANGED memvars
@@ -91,7 +94,7 @@ rd_dep(t) == /\ pc[t] = "rd_dep"
 \* ------------------------------------------------------------------ update
 StartUpdate(t) == /\ t \in Writers /\ pc[t] = "idle" /\ budget[t] > 0
                   /\ budget' = [budget EXCEPT ![t] = @ - 1]
-                  /\ lin' = MonCall(lin, t, "update", 10, 0)
+                  /\ lin' = [lin EXCEPT !.mon = MonCall(@, t, "update", 10, 0)]
                   /\ loc' = [loc EXCEPT ![t] = [L0 EXCEPT !.arg = 10]]
                   /\ Goto(t, "up_lock") /\ Acc(t, "call", "update", 10, 1)
                   /\ UNCHANGED memvars
@@ -155,7 +158,8 @@ Next == \E t \in Threads : ThreadStep(t)
 Spec == Init /\ [][Next]_vars
 
 \* C13
-Linearizable == lin # {}
+Linearizable == lin.mon # {}
+NoMixture == lin.bad = "ok"
 \* a read functor never runs on the instance an update functor is modifying
 NoReaderOnWrittenInstance ==
   \A r \in Threads \ Writers, w \in Writers :
